@@ -166,6 +166,8 @@ def dilate(A, Bc=None, out=None, output=None):
     if np.may_share_memory(A, output):
         # the kernel reads its input while it writes the output
         A = A.copy()
+    if np.may_share_memory(Bc, output):
+        Bc = Bc.copy()
     return _morph.dilate(A, Bc, output)
 
 def erode(A, Bc=None, out=None, output=None):
@@ -205,6 +207,8 @@ def erode(A, Bc=None, out=None, output=None):
     if np.may_share_memory(A, output):
         # the kernel reads its input while it writes the output
         A = A.copy()
+    if np.may_share_memory(Bc, output):
+        Bc = Bc.copy()
     return _morph.erode(A, Bc, output)
 
 
@@ -247,6 +251,8 @@ def cerode(f, g, Bc=None, out=None, output=None):
     if np.may_share_memory(g, out):
         # `out` is about to be overwritten with the erosion; keep the condition
         g = g.copy()
+    if np.may_share_memory(Bc, out):
+        Bc = Bc.copy()
     f = _morph.erode(f, Bc, out)
     return np.maximum(f, g, out=f)
 
@@ -445,6 +451,9 @@ def open(f, Bc=None, out=None, output=None):
     """
     _verify_is_integer_type(f, 'open')
     Bc = get_structuring_elem(f, Bc)
+    if np.may_share_memory(Bc, out if out is not None else output):
+        # the first pass writes `out`; the second pass still needs the structuring element
+        Bc = Bc.copy()
     eroded = erode(f, Bc, out=out, output=output)
     # We need to copy for the simple reason that otherwise, the image will be
     # modified in place, which can mess up the implementation
@@ -486,6 +495,9 @@ def close(f, Bc=None, out=None, output=None):
     """
     _verify_is_integer_type(f, 'close')
     Bc = get_structuring_elem(f, Bc)
+    if np.may_share_memory(Bc, out if out is not None else output):
+        # the first pass writes `out`; the second pass still needs the structuring element
+        Bc = Bc.copy()
     dilated = dilate(f, Bc, out=out, output=output)
     # We need to copy for the simple reason that otherwise, the image will be
     # modified in place, which can mess up the implementation
